@@ -127,6 +127,11 @@ Upsert(lat, m) ==
   SetLayer(lat, m.obs, m.ne,
            IF j = 0 THEN Append(L, m) ELSE IF Better(L[j], m) THEN [L EXCEPT ![j] = m] ELSE L)
 
+\* plain dictionary assignment  c[key] = m  (replaces whatever is stored under the key, keeps its position)
+Assign(lat, m) ==
+  LET L == LayerOf(lat, m.obs, m.ne)  j == IdxOf(L, Key(m)) IN
+  SetLayer(lat, m.obs, m.ne, IF j = 0 THEN Append(L, m) ELSE [L EXCEPT ![j] = m])
+
 (***************************************************************************)
 (* LatticeColumn.prune, stated declaratively (not as a sort):              *)
 (* vW = the W-th largest log-probability among the live entries (with      *)
@@ -246,10 +251,11 @@ NEInnerStep(I, cf, S, m, st, c, nb) ==
                IF LbHas(lb, st) /\ ~(e.dist <= lb[st].d) THEN S
                ELSE <<Upsert(lat, e), lb>>
             ELSE                  \* node states
-               IF j # 0 THEN <<Upsert(lat, e), lb>>
+               IF e.stop THEN (IF j = 0 THEN <<Upsert(lat, e), lb>> ELSE S)     \* kept for inspection only (DEBUG)
+               ELSE IF j # 0 /\ ~L[j].stop THEN <<Upsert(lat, e), lb>>
                ELSE IF LbHas(lb, st) /\ ~(e.dist < lb[st].d) THEN
-                       (IF cf.debug THEN <<Upsert(lat, [e EXCEPT !.stop = TRUE]), lb>> ELSE S)   \* KeepStoppedUnderDebug
-               ELSE <<Upsert(lat, e), LbSet(lb, st, [d |-> e.dist, lp |-> e.lp, k |-> Key(e)])>>
+                       (IF cf.debug THEN <<Assign(lat, [e EXCEPT !.stop = TRUE]), lb>> ELSE S)   \* KeepStoppedUnderDebug
+               ELSE <<Assign(lat, e), LbSet(lb, st, [d |-> e.dist, lp |-> e.lp, k |-> Key(e)])>>
 
 RECURSIVE NEInnerFold(_, _, _, _, _, _, _)
 NEInnerFold(I, cf, S, props, c, nb, j) ==
@@ -262,7 +268,8 @@ NEEndStep(I, cf, S, m, st, c1) ==
   ELSE LET x == Nxt(I, cf, lat, m, st, c1, 0) IN
        IF x = << >> THEN S
        ELSE LET e == x[1] IN
-            IF LbHas(lb, st) /\ ~(e.lp > LbLp(lat, lb[st])) THEN
+            IF e.stop THEN <<Upsert(lat, e), lb>>                                          \* kept for inspection only (DEBUG)
+            ELSE IF LbHas(lb, st) /\ ~(e.lp > LbLp(lat, lb[st])) THEN
                  (IF cf.debug THEN <<Upsert(lat, [e EXCEPT !.stop = TRUE]), lb>> ELSE S)         \* KeepStoppedUnderDebug
             ELSE LET fresh == ~HasKey(lat, Key(e)) IN
                  <<Upsert(lat, e),
